@@ -245,6 +245,7 @@ func (w *World) spawn(parent *Thread, name string, f func()) *Thread {
 		parent.nspawn++
 		t.tid = mix(parent.tid, parent.nspawn)
 		t.vc = parent.vc.clone()
+		parent.vc[parent.id]++                       // what the parent does after the spawn is not ordered before the child
 		t.lastEv = mix(parent.lastEv, parent.nspawn) // child's history hangs off the parent's
 	}
 	if len(t.vc) <= t.id {
@@ -252,6 +253,7 @@ func (w *World) spawn(parent *Thread, name string, f func()) *Thread {
 		copy(n, t.vc)
 		t.vc = n
 	}
+	t.vc[t.id] = 1 // a thread's own epoch starts at 1: 0 means "nothing known" in Leq
 	t.p.kind = KStart
 	w.threads = append(w.threads, t)
 	w.wg.Add(1)
@@ -293,9 +295,17 @@ func (t *Thread) park() {
 
 // event records that thread t executed an operation on o. write=true orders it against
 // everything earlier on o; write=false only against earlier writes.
+//
+// Vector clocks follow the usual release/acquire discipline of happens-before race
+// detectors: an operation first acquires (joins the object's clock), then publishes the
+// thread's clock on the object, and only then advances the thread's own component. Plain
+// code that runs after the operation therefore carries an epoch that nobody has acquired
+// yet: it is ordered before another thread's code only if this thread performs a further
+// release which that thread acquires. Clock() values taken before/after a call can so be
+// compared with Leq to decide "the whole call happened-before ...".
 func (w *World) event(t *Thread, k Kind, o *obj, write bool, result uint64) {
 	t.nev++
-	t.vc[t.id]++
+	defer func() { t.vc[t.id]++ }()
 	var eh uint64
 	if o != nil {
 		if write {
